@@ -215,6 +215,9 @@ impl BDF {
             guess.abs()
         };
 
+        // A start below the resolution of the time axis is raised to ten units in the last place of x (SciPy does
+        // this for every proposed step): otherwise the stagnation guard ends the run before its first attempt
+        h_abs = h_abs.max(10.0 * Float::EPSILON * x.abs());
         #[cfg(ivp_verif)]
         let h_abs_unclamped = h_abs;
         h_abs = h_abs.min(hmax.max(Float::MIN_POSITIVE));
